@@ -486,3 +486,171 @@ Theorem C19_axial_area_element : forall ax r phi t,
     norm2 (cross3 dphi dt) = r * r.
 Proof. exact axial_area_element. Qed.
 Print Assumptions C19_axial_area_element.
+
+(* ================================================================== *)
+(* 3-D edge correction, the faces within reach all PARALLEL to one axis *)
+(* (two adjacent faces without / with overlapping caps, and more)       *)
+(* Model/StaticGeom4.v, Proofs/StaticLune.v, Proofs/StaticGeom4.v       *)
+(* ================================================================== *)
+From TP Require Import Model.StaticGeom4 Proofs.StaticLune Proofs.StaticGeom4.
+
+(* THEOREM.  r > 0, centre in the closed box, and the two faces PERPENDICULAR
+   to the axis ax at distance >= r ([along ax] = their two distances).  The four
+   faces parallel to ax are unconstrained: none, one, two opposite, two ADJACENT
+   faces whose caps do not overlap (sphere minus two caps), two adjacent faces
+   whose caps overlap (the edge term sphere_edge_area enters), three or all
+   four faces around a column (up to four caps and four edge terms).  Then
+   area_3d_bounded -- the generated function, with its NaN mask below
+   10^-7 r^2 -- is the area, about ax (the direction of the box edges
+   concerned), of the part of the sphere inside the box.
+
+   Proof idea: the slice of the sphere at height t along ax is a circle of
+   radius rho = sqrt(r^2 - t^2) cut by four walls, i.e. the 2-D problem, whose
+   measure is arclen_2d rho ... / rho by C19_arclen_2d_bounded_is_measure; the
+   integral over t of r times that measure is evaluated term by term:
+   r INT 2 acos(h/rho) dt = 2 PI r (r - h) and
+   r INT (acos(h2/rho) - asin(h1/rho)) dt = sphere_edge_area h1 h2 r
+   (explicit antiderivative, fundamental theorem of calculus with the derivative
+   in the open interval, arctangent addition formulas; all degenerate positions
+   -- centre on a face or on an edge -- included).
+
+   PARTIAL only in that (i) the corner regime (three mutually adjacent faces
+   within reach, sphere_corner_area) is not evaluated in closed form -- for it
+   there is C19_area_3d_slice_integral_partial below and the numerical reference
+   of the correspondence run; (ii) as for C19_area_3d_single_cap_partial, the
+   area is the one measured about ax (r dphi dt is the Euclidean surface
+   element, C19_axial_area_element); independence of the axis is not proved. *)
+Theorem C19_area_3d_edges_partial : forall ax r cx cy cz x0 x1 y0 y1 z0 z1,
+  0 < r -> (x0 <= cx <= x1 /\ y0 <= cy <= y1 /\ z0 <= cz <= z1) ->
+  List.Forall (fun h => r <= h)
+    [fst (along ax (cx - x0) (x1 - cx) (cy - y0) (y1 - cy) (cz - z0) (z1 - cz));
+     snd (along ax (cx - x0) (x1 - cx) (cy - y0) (y1 - cy) (cz - z0) (z1 - cz))] ->
+  exists a,
+    has_axial_area ax r
+      (fun p => x0 <= cx + fst (fst p) <= x1 /\ y0 <= cy + snd (fst p) <= y1 /\ z0 <= cz + snd p <= z1) a /\
+    py_area_3d_bounded r cx cy cz x0 x1 y0 y1 z0 z1 = nan_below (/ (10 ^ 7) * r ^ 2) a.
+Proof. exact gen_area_3d_bounded_lateral. Qed.
+Print Assumptions C19_area_3d_edges_partial.
+
+(* (1) two adjacent faces (here x+ at distance dx, y+ at distance dy; the four
+   others out of reach) whose caps do not overlap, sqrt(dx^2 + dy^2) >= r:
+   the value is the sphere minus two caps ... *)
+Theorem C19_area_3d_two_adjacent_no_overlap : forall r xm dx ym dy zm zp,
+  0 < r -> 0 <= dx < r -> 0 <= dy < r -> r * r <= dx * dx + dy * dy ->
+  r <= xm -> r <= ym -> r <= zm -> r <= zp ->
+  area_3d r xm dx ym dy zm zp = 4 * PI * (r * r) - sphere_cap_area dx r - sphere_cap_area dy r.
+Proof. exact area_3d_two_adjacent_no_overlap. Qed.
+
+(* (2) ... and when they overlap, dx^2 + dy^2 < r^2, inclusion-exclusion with the
+   edge term; by C19_area_3d_edges_partial (ax = AZ) both are the true area. *)
+Theorem C19_area_3d_two_adjacent_overlap : forall r xm dx ym dy zm zp,
+  0 < r -> 0 <= dx -> 0 <= dy -> dx * dx + dy * dy < r * r ->
+  r <= xm -> r <= ym -> r <= zm -> r <= zp ->
+  area_3d r xm dx ym dy zm zp
+  = 4 * PI * (r * r) - sphere_cap_area dx r - sphere_cap_area dy r + sphere_edge_area dx dy r.
+Proof. exact area_3d_two_adjacent_overlap. Qed.
+
+(* The edge term itself: sphere_edge_area dx dy r IS the area, about the
+   direction of the box edge (AZ), of the lune { p on the sphere | dx <= p_x and
+   dy <= p_y } cut off by both half-spaces, for every 0 <= dx, 0 <= dy with
+   dx^2 + dy^2 < r^2 (faces through the centre included) ... *)
+Theorem C19_sphere_edge_area_is_lune : forall dx dy r,
+  0 < r -> 0 <= dx -> 0 <= dy -> dx * dx + dy * dy < r * r ->
+  has_axial_area AZ r (fun p => dx <= fst (fst p) /\ dy <= snd (fst p)) (sphere_edge_area dx dy r).
+Proof. exact edge_area_is_lune. Qed.
+Print Assumptions C19_sphere_edge_area_is_lune.
+
+(* ... and sphere_cap_area dx r is the area of the cap { dx <= p_x } measured about
+   the SAME axis (parallel to the face), so that
+   sphere - cap_x - cap_y + lune_xy is inclusion-exclusion of areas about one axis. *)
+Theorem C19_sphere_cap_area_about_edge : forall dx r,
+  0 < r -> 0 <= dx < r ->
+  has_axial_area AZ r (fun p => dx <= fst (fst p)) (sphere_cap_area dx r).
+Proof. exact cap_area_about_edge. Qed.
+
+(* as integrals: rho r t = sqrt(r^2 - t^2); cap_term / corner_term are the 2-D
+   cap / corner arc lengths with the code's masks; scap_term / sedge_term the
+   3-D cap / edge areas with the code's masks.  For all h, h1, h2 >= 0. *)
+Theorem C19_cap_and_edge_integrals : forall r,
+  0 < r ->
+  (forall h, 0 <= h ->
+     is_RInt (fun t => r * (cap_term h (rho r t) / rho r t)) (- r) r (scap_term h r)) /\
+  (forall h1 h2, 0 <= h1 -> 0 <= h2 ->
+     is_RInt (fun t => r * (corner_term h1 h2 (rho r t) / rho r t)) (- r) r (sedge_term h1 h2 r)).
+Proof. intros r Hr. split; [intros; apply cap_piece|intros; apply corner_piece]; assumption. Qed.
+Print Assumptions C19_cap_and_edge_integrals.
+
+(* EVERY regime (corners included), PARTIAL: the area about ax of the part of
+   the sphere inside the box is the integral over the height t of r times
+   slice_measure_ax = (inside the slab of the two faces perpendicular to ax) the
+   2-D edge correction arclen_2d of the slice circle divided by its radius.
+   Missing for the corner regime: the closed-form evaluation of this integral
+   when the slab truncates it (-lo or hi inside (-r, r)) and its identification
+   with the code's 4 PI r^2 - caps + edges - corners (sphere_corner_area). *)
+Theorem C19_area_3d_slice_integral_partial : forall ax r cx cy cz x0 x1 y0 y1 z0 z1 a,
+  0 < r -> (x0 <= cx <= x1 /\ y0 <= cy <= y1 /\ z0 <= cz <= z1) ->
+  (has_axial_area ax r
+     (fun p => x0 <= cx + fst (fst p) <= x1 /\ y0 <= cy + snd (fst p) <= y1 /\ z0 <= cz + snd p <= z1) a
+   <-> is_RInt (fun t => r * slice_measure_ax ax r (cx - x0) (x1 - cx) (cy - y0) (y1 - cy) (cz - z0) (z1 - cz) t)
+               (- r) r a).
+Proof. exact axial_area_iff_slice_integral. Qed.
+Print Assumptions C19_area_3d_slice_integral_partial.
+
+(* non-vacuity: box [0,10]^3, r = 2.  Centre (17/2, 17/2, 5): faces x+ and y+ at
+   distance 3/2, caps disjoint (9/4 + 9/4 >= 4); centre (9, 9, 5): both at
+   distance 1, caps overlap (1 + 1 < 4).  In both the hypotheses of
+   C19_area_3d_edges_partial hold with ax = AZ. *)
+Example C19_area_3d_two_adjacent_examples :
+  ((0 <= 17 / 2 <= 10 /\ 0 <= 17 / 2 <= 10 /\ 0 <= 5 <= 10) /\
+   2 <= fst (along AZ (17 / 2 - 0) (10 - 17 / 2) (17 / 2 - 0) (10 - 17 / 2) (5 - 0) (10 - 5)) /\
+   2 <= snd (along AZ (17 / 2 - 0) (10 - 17 / 2) (17 / 2 - 0) (10 - 17 / 2) (5 - 0) (10 - 5)) /\
+   area_3d_bounded 2 (17 / 2) (17 / 2) 5 0 10 0 10 0 10 = 4 * PI * (2 * 2) - 2 * (2 * PI * 2 * (2 - 3 / 2))) /\
+  ((0 <= 9 <= 10 /\ 0 <= 9 <= 10 /\ 0 <= 5 <= 10) /\
+   2 <= fst (along AZ (9 - 0) (10 - 9) (9 - 0) (10 - 9) (5 - 0) (10 - 5)) /\
+   2 <= snd (along AZ (9 - 0) (10 - 9) (9 - 0) (10 - 9) (5 - 0) (10 - 5)) /\
+   area_3d_bounded 2 9 9 5 0 10 0 10 0 10
+   = 4 * PI * (2 * 2) - 2 * (2 * PI * 2 * (2 - 1)) + sphere_edge_area 1 1 2).
+Proof. exact area_3d_two_adjacent_examples. Qed.
+
+(* ------------------------------------------------------------------ *)
+(* Faces of ALL THREE axes within reach, as long as every edge term that *)
+(* is switched on belongs to a box edge parallel to one axis ax          *)
+(* ------------------------------------------------------------------ *)
+(* [edges_parallel_only ax r xm xp ym yp zm zp] (Model/StaticGeom4.v): for each
+   of the two faces perpendicular to ax (distance f) and each of the four faces
+   parallel to ax (distance g):  r^2 <= f^2 + g^2  (no_cross: their caps do not
+   overlap, the code's edge mask f^2 + g^2 < r^2 is off; automatically true when
+   f >= r or g >= r).  This contains the two regimes above (single axis; faces
+   parallel to one axis) and adds, e.g., three mutually adjacent faces within
+   reach with pairwise disjoint caps, or with only one pair overlapping: then
+   area_3d_bounded = 4 PI r^2 - up to six caps + up to four edge terms is the
+   area about ax of the part of the sphere inside the box.
+   What remains unproved (numerical reference only): edge terms of two
+   different directions switched on together, and the corner term
+   (sphere_corner_area). *)
+Theorem C19_area_3d_parallel_edges_partial : forall ax r cx cy cz x0 x1 y0 y1 z0 z1,
+  0 < r -> (x0 <= cx <= x1 /\ y0 <= cy <= y1 /\ z0 <= cz <= z1) ->
+  edges_parallel_only ax r (cx - x0) (x1 - cx) (cy - y0) (y1 - cy) (cz - z0) (z1 - cz) ->
+  exists a,
+    has_axial_area ax r
+      (fun p => x0 <= cx + fst (fst p) <= x1 /\ y0 <= cy + snd (fst p) <= y1 /\ z0 <= cz + snd p <= z1) a /\
+    py_area_3d_bounded r cx cy cz x0 x1 y0 y1 z0 z1 = nan_below (/ (10 ^ 7) * r ^ 2) a.
+Proof. exact gen_area_3d_bounded_parallel_edges. Qed.
+Print Assumptions C19_area_3d_parallel_edges_partial.
+
+(* written out for ax = AZ *)
+Theorem C19_edges_parallel_only_AZ : forall r xm xp ym yp zm zp,
+  edges_parallel_only AZ r xm xp ym yp zm zp <->
+  ((r * r <= zm * zm + xm * xm /\ r * r <= zm * zm + xp * xp /\ r * r <= zm * zm + ym * ym /\ r * r <= zm * zm + yp * yp) /\
+   (r * r <= zp * zp + xm * xm /\ r * r <= zp * zp + xp * xp /\ r * r <= zp * zp + ym * ym /\ r * r <= zp * zp + yp * yp)).
+Proof. intros. reflexivity. Qed.
+
+(* non-vacuity: box [0,10]^3, r = 2, centre (9, 9, 41/5): faces x+ and y+ at
+   distance 1 (caps overlap, the edge parallel to z is on) and face z+ at distance
+   9/5 < r, whose cap meets neither (81/25 + 1 >= 4): three mutually adjacent
+   faces within reach. *)
+Example C19_area_3d_parallel_edges_example :
+  (0 <= 9 <= 10 /\ 0 <= 9 <= 10 /\ 0 <= 41 / 5 <= 10) /\
+  edges_parallel_only AZ 2 (9 - 0) (10 - 9) (9 - 0) (10 - 9) (41 / 5 - 0) (10 - 41 / 5) /\
+  10 - 41 / 5 < 2 /\ 10 - 9 < 2 /\ (10 - 9) * (10 - 9) + (10 - 9) * (10 - 9) < 2 * 2.
+Proof. exact parallel_edges_example. Qed.
